@@ -44,7 +44,10 @@ class ipaddress(FieldType):
             return defang(str(self))
         return str.__format__(str(self), spec)
 
-    def _pack(self) -> int:
+    def _pack(self) -> int | str:
+        # An IPv6 address below 2**32 packed as integer would be unpacked as an IPv4 address
+        if self.val.version == 6 and int(self.val) < 2**32:
+            return str(self.val)
         return int(self.val)
 
     @staticmethod
